@@ -60,19 +60,20 @@ def _make_stubs():
             self.draws = []
             self.rng_at_first_step = None
 
-        def reset_model(self):
+        # every stub method accepts any positional / keyword form (checklist item 21): the code under test may pass by name
+        def reset_model(self, *args, **kwargs):
             self.trace.append(2)
             self.steps = 0
 
-        def set_rng(self, rng):
+        def set_rng(self, *args, **kwargs):
             self.trace.append(3)
-            self._rng = rng
+            self._rng = first_arg(args, kwargs, "CountingMCMC.set_rng")
 
         @property
         def rng(self):
             return self._rng
 
-        def step(self):
+        def step(self, *args, **kwargs):
             self.trace.append(0)
             self.steps += 1
             if self._rng is not None:
@@ -82,7 +83,7 @@ def _make_stubs():
             else:
                 self.draws.append(None)
 
-        def get_model_state(self):
+        def get_model_state(self, *args, **kwargs):
             return State(self.steps, self.draws[-1] if self.draws else None)
 
     class CountingVI(VIModel):
@@ -92,19 +93,25 @@ def _make_stubs():
             self.returned = returned
             self.calls = []
 
-        def reset_model(self):
+        def reset_model(self, *args, **kwargs):
             self.trace.append("R")
 
-        def set_rng(self, rng):
-            ss = seed_seq_of(rng)
-            self.trace.append("G%d/%s" % (int(ss.entropy), show_list(ss.spawn_key)))
+        def set_rng(self, *args, **kwargs):
+            rng = first_arg(args, kwargs, "CountingVI.set_rng")
+            try:
+                ss = seed_seq_of(rng)
+                self.trace.append("G%d/%s" % (int(ss.entropy), show_list(ss.spawn_key)))
+            except Exception as e:  # noqa
+                WRAP_ERRORS.append("CountingVI.set_rng: %s: %s" % (type(e).__name__, e))
+                self.trace.append("G?")
             self._rng = rng
 
         @property
         def rng(self):
             return self._rng
 
-        def sample(self, num_samples):
+        def sample(self, *args, **kwargs):
+            num_samples = kwargs["num_samples"] if "num_samples" in kwargs else first_arg(args, kwargs, "CountingVI.sample")
             self.trace.append("S%d" % num_samples)
             self.calls.append(num_samples)
             r = num_samples if self.returned is None else self.returned
@@ -116,11 +123,45 @@ def _make_stubs():
             self.trace = trace
             self.code = code
 
-        def add_theta(self, theta):
-            super().add_theta(theta)
+        def add_theta(self, *args, **kwargs):
+            super().add_theta(*args, **kwargs)
             self.trace.append(self.code)
 
     return State, CountingMCMC, CountingVI, Holder
+
+
+WRAP_ERRORS = []
+
+
+def errname(e):
+    """exception class name; prefixed with `harness:` when the innermost frame is harness code (stub / wrapper): such an exception is
+    never the implementation's (checklist item 21)"""
+    from harness.wrapguard import raised_in_harness
+    return ("harness:" if raised_in_harness(e) else "") + type(e).__name__
+
+
+def harness_error(res, case, err):
+    """True (and a tie recorded) when `err` was raised by harness code"""
+    if err and str(err).startswith("harness:"):
+        res.count("wrapper.unexpected-call")
+        res.disagree("C17:harness-exception", {"case": case}, err, "no exception in harness code")
+        return True
+    return False
+
+
+def first_arg(args, kwargs, who):
+    """the single argument of a call, positional or by whatever name"""
+    vals = list(args) + list(kwargs.values())
+    if len(vals) != 1:
+        WRAP_ERRORS.append("%s called with %d arguments" % (who, len(vals)))
+    return vals[0] if vals else None
+
+
+def drain_wrapper_errors(res, case=None):
+    if WRAP_ERRORS:
+        res.count("wrapper.unexpected-call", len(WRAP_ERRORS))
+        res.disagree("C17:wrapper-unexpected-call", {"case": case}, WRAP_ERRORS[0], "a call form the harness's stubs understand")
+        del WRAP_ERRORS[:]
 
 
 def seed_seq_of(rng):
@@ -170,7 +211,7 @@ def _run_mcmc(n, b, t, seed=0, n_chains=1, idx=0, progress=False, np_int=False, 
             ret = sample(model, holder, seed=seed, n_chains=n_chains, chain_index=idx, n_burnin=b, thin=t)
         out["returned_holder"] = ret is holder
     except Exception as e:  # noqa
-        out["error"] = type(e).__name__
+        out["error"] = errname(e)
     out["trace"] = list(trace)
     out["positions"] = [th.steps for th in holder.thetas]
     out["recorded_draws"] = [th.draw for th in holder.thetas]
@@ -227,7 +268,7 @@ def _run_vi(seed, n, returned=None):
     try:
         sample(model, holder, seed=seed)
     except Exception as e:  # noqa
-        out["error"] = type(e).__name__
+        out["error"] = errname(e)
     out["trace"] = list(trace)
     out["calls"] = list(model.calls)
     out["n_added"] = len(holder.thetas)
@@ -267,17 +308,17 @@ def _real_setup():
     class RecordingCombo(SparseDrugCombo):
         trace = None
 
-        def reset_model(self):
+        def reset_model(self, *args, **kwargs):
             self.trace.append(2)
-            super().reset_model()
+            return super().reset_model(*args, **kwargs)
 
-        def set_rng(self, rng):
+        def set_rng(self, *args, **kwargs):
             self.trace.append(3)
-            super().set_rng(rng)
+            return super().set_rng(*args, **kwargs)
 
-        def step(self):
+        def step(self, *args, **kwargs):
             self.trace.append(0)
-            super().step()
+            return super().step(*args, **kwargs)
 
     def make(trace, rng=None):
         m = RecordingCombo(experiment_space=es, n_embedding_dimensions=2, rng=rng)
@@ -300,20 +341,21 @@ def install_cli_model():
     from batchie.data import ExperimentSpace
     if getattr(mod, "VerifRecCombo", None) is None:
         class VerifRecCombo(mod.SparseDrugCombo):
-            def __init__(self, experiment_space: ExperimentSpace, n_embedding_dimensions: int):
+            def __init__(self, experiment_space: ExperimentSpace, n_embedding_dimensions: int, *args, **kwargs):
                 CLI["instances"] += 1
-                super().__init__(experiment_space=experiment_space, n_embedding_dimensions=n_embedding_dimensions,
-                                 rng=(np.random.default_rng(123) if CLI["preset"] else None))
+                if CLI["preset"]:
+                    kwargs.setdefault("rng", np.random.default_rng(123))
+                super().__init__(experiment_space, n_embedding_dimensions, *args, **kwargs)
 
-            def reset_model(self):
+            def reset_model(self, *args, **kwargs):
                 CLI["trace"].append(2)
-                super().reset_model()
+                return super().reset_model(*args, **kwargs)
 
-            def set_rng(self, rng):
+            def set_rng(self, *args, **kwargs):
                 CLI["trace"].append(3)
-                super().set_rng(rng)
+                return super().set_rng(*args, **kwargs)
 
-            def step(self):
+            def step(self, *args, **kwargs):
                 if 0 not in CLI["trace"]:
                     CLI["first_rng"] = copy.deepcopy(self.rng)      # state is copied; the seed sequence is read from the original
                     try:
@@ -322,7 +364,7 @@ def install_cli_model():
                     except Exception:  # noqa
                         CLI["first_ss"] = (None, None)
                 CLI["trace"].append(0)
-                super().step()
+                return super().step(*args, **kwargs)
         mod.VerifRecCombo = VerifRecCombo
 
 
@@ -375,7 +417,7 @@ def run_train_cli(case, tmp):
         with quiet_cli(argv), contextlib.redirect_stdout(io.StringIO()), contextlib.redirect_stderr(io.StringIO()):
             tm.main()
     except BaseException as e:  # noqa
-        o["error"] = "%s: %s" % (type(e).__name__, e)
+        o["error"] = "%s: %s" % (errname(e), e)
         return o
     o["trace"] = list(CLI["trace"])
     g = CLI["first_rng"]
@@ -410,6 +452,8 @@ def run_train_cli(case, tmp):
 def oracle_train_cli(res, case, o, earlier):
     """the property's clauses through the real entry point; `earlier` = observations of earlier CLI runs of this process by triple"""
     n, b, t = case["n"], case["b"], case["t"]
+    if harness_error(res, case, o["error"]):
+        return
     if o["error"]:
         res.fail("train_model.main() raises on a valid schedule / triple", case, o["error"], "thetas written", signature="C17:cli-raises")
         return
@@ -500,7 +544,7 @@ def _run_calls(case):
         try:
             sample(model, holder, seed=seed, n_chains=nc, chain_index=idx, n_burnin=b, thin=t)
         except Exception as e:  # noqa
-            o["error"] = type(e).__name__
+            o["error"] = errname(e)
         o["trace"] = list(trace)
         rng = model.rng
         o["has_rng"] = rng is not None
@@ -554,6 +598,8 @@ def oracle_calls(res, case, obs):
     for j, o in enumerate(obs):
         c = dict(case, failing_call=j)
         seed, nc, idx = o["call"]
+        if harness_error(res, c, o["error"]):
+            return False
         if o["error"]:
             res.fail("sample raises on a reused / preset model", c, o["error"], "no exception", signature="C17:rng-raises")
             return False
@@ -620,6 +666,8 @@ def verbose_vs_plain(res, case, o):
 
 def oracle_schedule(res, case, o):
     n, b, t = case["n"], case["b"], case["t"]
+    if harness_error(res, case, o["error"]):
+        return
     if o["error"]:
         res.fail("sample raises on a valid schedule", case, o["error"], "no exception", signature="C17:schedule-raises")
         return
@@ -661,6 +709,8 @@ def ref_draws(seed, key):
 def oracle_rng_single(res, case, ob):
     """the generator is default_rng(SeedSequence(seed, spawn_key=(chain_index,)))"""
     seed, idx = case["seed"], case["idx"]
+    if harness_error(res, case, ob.get("error")):
+        return False
     if ob.get("error"):
         res.fail("sample raises for a valid (seed, n_chains, chain_index)", case, ob["error"], "no exception", signature="C17:rng-raises")
         return False
@@ -697,6 +747,8 @@ def oracle_rng_pair(res, case, oa, ob):
 
 def oracle_vi(res, case, o):
     seed, n = case["seed"], case["n"]
+    if harness_error(res, case, o["error"]):
+        return
     if o["error"]:
         res.fail("VI sampling raises", case, o["error"], "no exception", signature="C17:vi-raises")
         return
@@ -1059,6 +1111,7 @@ def run(ctx, res):
         if tr:
             res.notes.append("model touched before argument check (%s)" % missing)
 
+    drain_wrapper_errors(res)
     # ---------- tie ----------------------------------------------------------------------------
     if drv is not None:
         got = drv.ask(lines)
@@ -1088,6 +1141,13 @@ def show_trace(tr):
 
 
 def replay(ctx, case, res):
+    try:
+        _replay(ctx, case, res)
+    finally:
+        drain_wrapper_errors(res, case)
+
+
+def _replay(ctx, case, res):
     k = case.get("kind")
     if k == "schedule" and case.get("verbose"):
         verbose_vs_plain(res, case, run_mcmc(case["n"], case["b"], case["t"], progress=bool(case.get("progress")),
